@@ -19,6 +19,7 @@ structure Env where
 
 def mroOf (e : Env) (c : Nat) : List Nat := (dget e.mro c).getD [c]
 
+mutual
 /-- `_localNameToFullName(name)` for the object `obj`; fuel bounds the walk to the parents.
 `none` = the walk fell off the tree (AttributeError on `None.parent`) or ran out of fuel. -/
 def localName (e : Env) : Nat → Nat → Name → Option Path
@@ -40,12 +41,51 @@ def localName (e : Env) : Nat → Nat → Name → Option Path
         | none => match dget o.aliases p with
           | some t => some t
           | none => match o.parent with
-            | some par => localName e f par p
+            | some par => localNameSkip e f par p
             | none => none
       | .function | .attribute =>
         match o.parent with
         | some par => localName e f par p
         | none => none
+/-- the fall-back of `Class._localNameToFullName` (since fix 71f60f2): `scope = self.parent; while isinstance(scope, Class)
+and isinstance(scope.parent, CanContainImportsDocumentable): scope = scope.parent; return scope._localNameToFullName(name)`
+— the names bound in enclosing CLASS bodies are skipped, the first enclosing scope that is not a class answers -/
+def localNameSkip (e : Env) : Nat → Nat → Name → Option Path
+  | 0, _, _ => none
+  | f+1, scope, p =>
+    match getObj e.st scope with
+    | none => none
+    | some so =>
+      match so.cls with
+      | .module | .package =>
+        match dget so.contents p with
+        | some c => path e.st c
+        | none => match dget so.aliases p with
+          | some t => some t
+          | none => some [p]
+      | .cls =>
+        match so.parent with
+        | some par =>
+          if (match getObj e.st par with | some po => canContainImports po.cls | none => false) then
+            localNameSkip e f par p                      -- an enclosing class: skipped
+          else
+            -- a class whose parent is no module or class answers itself (`Class._localNameToFullName`)
+            match dget so.contents p with
+            | some c => path e.st c
+            | none => match dget so.aliases p with
+              | some t => some t
+              | none => localName e f par p
+        | none =>
+          match dget so.contents p with
+          | some c => path e.st c
+          | none => match dget so.aliases p with
+            | some t => some t
+            | none => none
+      | .function | .attribute =>
+        match so.parent with
+        | some par => localName e f par p
+        | none => none
+end
 
 def fuelOf (e : Env) : Nat := e.st.objs.length + 1
 
